@@ -95,7 +95,8 @@ def without_failed(g, out):
         if si >= len(steps) or steps[si].get("receipts") is None and ops:
             return None
         recs = steps[si].get("receipts") or []
-        idx = [i for i, rc in enumerate(recs) if rc[0] == 0]
+        # reads have no effect of their own: they stay, so that their answers can be compared
+        idx = [i for i, rc in enumerate(recs) if rc[0] == 0 or X.body_reads(ops[i]["body"])]
         blocks.append([ops[i] for i in idx])
         keep.append(idx)
     return dict(cfg=g["cfg"], pre=g["pre"], blocks=blocks, views=[], blk_kw=g.get("blk_kw", {})), keep
@@ -211,7 +212,7 @@ def build_rows(g, out, flagsets, ids, ref=None):
             keep = ref[1][bi]
             so, ro, oko = tr_o[bi]
             sr, rr, okr = tr_r[bi]
-            if all(okr):             # comparable only if the kept transactions still succeed
+            if all(ok or X.body_reads(ops[i]["body"]) for ok, i in zip(okr, keep)):    # comparable only if the kept writers still succeed
                 keys = set()
                 for o in ops:
                     keys.update(X.body_keys(X.resolve_obs_values(o["body"], ids, ob.get("state"))))
